@@ -182,15 +182,14 @@ func TestC10Endpoints(t *testing.T) {
 				cancel()
 				if err == nil {
 					status = 200
+					want := 0
+					if u, ok := ups[routed]; ok && u.Node == entry {
+						want = 1
+					}
+					Eventually(Deadline(), func() bool { return entry.Srv.ClusterState().LocalEndpointListeners(routed) == want+1 })
 					_ = ln.Shutdown()
 					// wait until the extra listener is gone again
-					Eventually(Deadline(), func() bool {
-						want := 0
-						if u, ok := ups[routed]; ok && u.Node == entry {
-							want = 1
-						}
-						return entry.Srv.ClusterState().LocalEndpointListeners(routed) == want
-					})
+					Eventually(Deadline(), func() bool { return entry.Srv.ClusterState().LocalEndpointListeners(routed) == want })
 				} else if strings.Contains(err.Error(), "401") {
 					status = 401
 				} else {
@@ -291,8 +290,12 @@ func TestC10Tenants(t *testing.T) {
 			got := err == nil
 			c.Stepf("signer=%d tenantHeader=%q claims=%q ep=%s -> accepted=%v err=%v (want %v)", signer, hdr, claims, ep, got, err, want)
 			if got {
+				// registration on the server is asynchronous: see it appear, then see it go
+				Eventually(Deadline(), func() bool { return n0.Srv.ClusterState().LocalEndpointListeners(ep) == before+1 })
 				_ = ln.Shutdown()
-				Eventually(Deadline(), func() bool { return n0.Srv.ClusterState().LocalEndpointListeners(ep) == before })
+				if !Eventually(Deadline(), func() bool { return n0.Srv.ClusterState().LocalEndpointListeners(ep) == before }) {
+					c.Harnessf("the accepted listener did not deregister")
+				}
 			}
 			if got && !want {
 				c.Fatalf("C10: listener accepted with token signed by %d under tenant header %q (tenants=%d, default key=%v, claims %q, endpoint %s)", signer, hdr, nT, hasDefault, claims, ep)
